@@ -376,8 +376,36 @@ def token_expectation(src, tree, op):
     return ('exact', pre + ctoks + post)
 
 
-def check_transition(src, new, op, res, cid, rep, params):
+def prepare(src, op):
+    """CPython tree with positions synthesised for withitem / match_case, and the request with append-like kinds rewritten
+    as the insert / put_slice they are defined as."""
     tree = ast.parse(src)
+    lines = src.split('\n')
+    for n in ast.walk(tree):
+        if isinstance(n, ast.withitem):
+            last = n.optional_vars or n.context_expr
+            n.lineno, n.col_offset = n.context_expr.lineno, n.context_expr.col_offset
+            n.end_lineno, n.end_col_offset = last.end_lineno, last.end_col_offset
+        elif isinstance(n, ast.match_case):
+            ln = n.pattern.lineno
+            n.lineno, n.col_offset = ln, len(lines[ln - 1]) - len(lines[ln - 1].lstrip())
+            n.end_lineno, n.end_col_offset = n.body[-1].end_lineno, n.body[-1].end_col_offset
+    k = op['op']
+    if k in ('append', 'prepend', 'extend', 'prextend'):
+        par = O.get_path(tree, tuple(tuple(x) for x in op['path']))
+        lst = getattr(par, op['field'], None)
+        if isinstance(lst, list):
+            at = len(lst) if k in ('append', 'extend') else 0
+            op = dict(op)
+            if k in ('append', 'prepend'):
+                op.update(op='insert', idx=at)
+            else:
+                op.update(op='put_slice', start=at, stop=at)
+    return tree, op
+
+
+def check_transition(src, new, op, res, cid, rep, params):
+    tree, op = prepare(src, op)
     exp = token_expectation(src, tree, op)
     got = toks(new)
     if exp is not None and got is not None:
